@@ -6,7 +6,11 @@ from typing import Optional, Union
 
 # websocket modules
 from ._abnf import ABNF, STATUS_NORMAL, continuous_frame, frame_buffer
-from ._exceptions import WebSocketProtocolException, WebSocketConnectionClosedException
+from ._exceptions import (
+    WebSocketBadStatusException,
+    WebSocketConnectionClosedException,
+    WebSocketProtocolException,
+)
 from ._handshake import SUPPORTED_REDIRECT_STATUSES, handshake
 from ._http import connect, proxy_info
 from ._logging import debug, error, trace, isEnabledForError, isEnabledForTrace
@@ -275,6 +279,14 @@ class WebSocket:
                     self.handshake_response = handshake(
                         self.sock, url, *addrs, **options
                     )
+            if self.handshake_response.status in SUPPORTED_REDIRECT_STATUSES:
+                # redirect limit exhausted: a redirect is not a successful handshake
+                raise WebSocketBadStatusException(
+                    f"Handshake status {self.handshake_response.status}: too many redirects",
+                    self.handshake_response.status,
+                    None,
+                    self.handshake_response.headers,
+                )
             self.connected = True
         except:
             if self.sock:
